@@ -54,6 +54,17 @@ def scale_stage(kinds, cases_quick):
     return f
 
 
+def hugelcp_stage(kinds, cases_quick):
+    """size class 8: 2-6 strings of 16-50 KB whose shared prefix sits around 2^14 / 2^15 bytes"""
+    def f(tier):
+        import os
+        only = os.environ.get("VERIF_KINDS")
+        ks = [k for k in kinds if KINDS[k] not in ("RPHTFC", "HTFC", "HHTFC") and (not only or KINDS[k] in only.split(","))]
+        return [{"name": "hugelcp", "binary": "dict_rc", "param": "hugelcp", "plan": [(k * NCLASS + 2, cases_quick * (4 if tier == "thorough" else 1), 60) for k in ks],
+                 "label_floors": {}, "nontrivial_floor": 8 if not only else 0}]
+    return f
+
+
 def dict_stages(kinds, quick_small, quick_large, binary="dict_rc", floors=None, nontrivial_floor=20, thorough_mult=4):
     def f(tier):
         import os
@@ -127,7 +138,7 @@ def sched_stages(prop, quick_cases, size, floors=None, nontrivial_floor=200, tho
 SPECS = {
     "C01": {
         **_meta('Generated-input search: thousands of (kind, parameter, string-set) cases per run, every member and ID of each case checked in both directions against the reference set on the built and both loaded objects; failures shrink to a replay file. Exploration is the right level: the property is universally quantified over inputs and 13 implementations, no finite model exists.', 'property-based testing (rapidcheck), reference-model round trip + bijection, ASan'),
-        "stages": (lambda tier: dict_stages(ALL, 60, 12)(tier) + scale_stage(ALL, 2)(tier)),
+        "stages": (lambda tier: dict_stages(ALL, 60, 12)(tier) + scale_stage(ALL, 2)(tier) + hugelcp_stage(ALL, 6)(tier)),
         "rule": "case = (kind, legal parameters, string set S, object state) decoded from rapidcheck bytes; for every "
                 "state (fresh, generic-loaded, own-loaded) all members (sample of 300 above that) are located, extracted "
                 "and compared with the reference set, and all IDs are extracted, looked up in S and located back "
